@@ -18,6 +18,7 @@ RULE = ("Pairs (A, B) differing by 1-5 changes of mixed kinds, with (1/3) and wi
 ASSUMPTIONS = ["an interface counts as named in the leaf report when its name occurs there as a whole word"]
 
 
+MASKED = "uncategorized-change-masked-by-harmless-category-in-default-mode"
 FNSUP = "function-or-variable-suppression-not-honoured-by-leaf-mode"
 
 
@@ -34,7 +35,7 @@ def strategy(tier):
 
 def run_case(case, cx):
     m, m2, cfg = case["model"], case["mutant"], case["cfg"]
-    d, b1, b2 = pairs.build_pair(cx, m, m2, cfg, nodebug_tus=tuple(case["nodebug"]))
+    d, b1, b2 = pairs.build_pair(cx, m, m2, cfg, nodebug_tus=tuple(case["nodebug"]), sonames=case.get("sonames"))
     opts = []
     if case["suppr"]:
         sp = d + "/s.suppr"
@@ -72,6 +73,15 @@ def run_case(case, cx):
             if d2.rc == l2.rc and not cbuild.crashed(d2) and not cbuild.crashed(l2):
                 cx.violation(FNSUP, det)
                 return
+            # the divergence persists without the function/variable sections: is it the masked defect below?
+            if (l2.rc & ~d2.rc) and not (d2.rc & ~l2.rc) and pairs.only_harmless_categories_in_tree(cx, b1, b2, o2):
+                cx.violation(MASKED, det)
+                return
+        # Second recorded defect (root cause shared with C05's masked finding): an uncategorized local change below a node
+        # that inherits a harmless category is filtered by the default reporter but shown by the leaf reporter.
+        if (leaf.rc & ~dflt.rc) and not (dflt.rc & ~leaf.rc) and pairs.only_harmless_categories_in_tree(cx, b1, b2, opts):
+            cx.violation(MASKED, det)
+            return
         cx.violation("exit-status-differs:default=%d,leaf=%d" % (dflt.rc, leaf.rc), det)
         return
     rep = pairs.parse_or_oracle_error(cx, dflt)
